@@ -1009,6 +1009,8 @@ class Fxp():
 
         # scaling reconversion
         if val is not None and self.scaled:
+            if isinstance(val, (np.ndarray, np.generic)) and val.dtype.kind == 'u' and self.n_word < _n_word_max:
+                val = val.astype(np.int64)  # unsigned codes are moved to signed integers: scale or bias could be negative
             val = val * self.scale + self.bias
         return val
 
